@@ -718,6 +718,28 @@ where
     }
 }
 
+#[cfg(feature = "verif-hooks")]
+impl<TNodeId, TVal> KBucketsTable<TNodeId, TVal>
+where
+    TNodeId: Clone,
+    TVal: Eq,
+{
+    /// Verification hook: makes the pending node of the given bucket eligible for insertion now.
+    pub fn verif_force_pending_ready(&mut self, bucket_index: usize) {
+        if let Some(bucket) = self.buckets.get_mut(bucket_index) {
+            bucket.verif_force_pending_ready();
+        }
+    }
+
+    /// Verification hook: the sequence of bucket indices visited by the closest iterator for a
+    /// target at the given distance from the local key.
+    pub fn verif_closest_bucket_order<T>(&self, target: &Key<T>) -> Vec<usize> {
+        ClosestBucketsIter::new(self.local_key.distance(target))
+            .map(|i| i.get())
+            .collect()
+    }
+}
+
 /// An iterator over (some projection of) the closest entries in a
 /// `KBucketsTable` w.r.t. some target `Key`.
 struct ClosestIter<'a, TTarget, TNodeId, TVal: Eq, TMap, TOut> {
